@@ -95,6 +95,29 @@ Section TTL.
     | e :: rest => reindex rest (S i) (<[ekey e := i]> it)
     end.
 
+  (* the slow path literally: `for i := s.head; i < len(s.order); i++ { if mapped { s.order[n] = s.order[i]; n++ } }`
+     writing into the prefix of the SAME slice; [keep_mapped] above is its functional reading (proved equal
+     whenever head > 0, which the guard of maybeCompact ensures) *)
+  Fixpoint compact_inplace (it : gmap key nat) (fuel i n : nat) (arr : list entry) : list entry * nat :=
+    match fuel with
+    | O => (arr, n)
+    | S f =>
+        match arr !! i with
+        | None => (arr, n)
+        | Some e =>
+            match it !! ekey e with
+            | Some idx =>
+                if Nat.eqb idx i then compact_inplace it f (S i) (S n) (<[n := e]> arr)
+                else compact_inplace it f (S i) n arr
+            | None => compact_inplace it f (S i) n arr
+            end
+        end
+    end.
+
+  Definition slow_inplace (s : st) : list entry :=
+    let '(arr, n) := compact_inplace (items s) (length (order s) - head s) (head s) 0 (order s) in
+    take n arr.
+
   Definition compact_guard (s : st) : bool :=
     Nat.eqb (head s) 0 || Nat.ltb (head s) (Nat.div (length (order s)) 2).
 
